@@ -135,6 +135,25 @@ def gen_cases(ctx, n):
         data = b"" if hx == "-" else bytes.fromhex(hx)
         out.append(Case(S.dec_op(meth, declen, chunk, -1, S.schedule(r, declen), data), spec="lzexp %s %s" % (meth, cmds),
                         spec_judge=mk_spec_judge(declen), tags={"m=" + meth, "copy" if "C" in cmds else "lits"}, note=cmds))
+    # TWO decoder objects alive together (the window and all other decoder state live in the object: an application may decode two
+    # members, or two archives, at the same time): each delivers what it delivers alone; the harness compares in C
+    streams = [(m, bytes.fromhex(hx), len(ex) // 2) for (m, _), hx, ex in zip(specs, ser, exl) if hx not in ("-", "") and ex not in ("-", "")
+               and not hx.startswith(("bad", "invalid", "FAULT"))]
+
+    def j2(c_out):
+        if c_out.startswith(("CRASH", "TIMEOUT")):
+            return "implementation crashed: " + c_out[:120]
+        if c_out.startswith("DIFFERENT"):
+            return "two decoders alive at the same time disturb one another: " + c_out
+        return None
+    for _ in range(min(24, len(streams) // 2)):
+        (ma, da, la), (mb, db, lb) = r.choice(streams), r.choice(streams)
+        if r.random() < 0.5:
+            mb = ma
+            cand = [x for x in streams if x[0] == ma]
+            (mb, db, lb) = r.choice(cand)
+        out.append(Case("dec2 %s %d %s %s %d %s %d" % (ma, la, da.hex(), mb, lb, db.hex(), r.choice([1, 7, 64, 300])), judge=j2,
+                        tags={"two-decoders", "c-only", "pair=%s+%s" % (ma, mb)}))
     for i in range(n // 5):
         meth = r.choice(["lh0", "lz4", "pm0"])
         ln = r.choice([0, 1, 1023, 1024, 1025, 2047, 2048, 2049, 3000, r.randrange(5000)])
